@@ -107,6 +107,8 @@ type Engine struct {
 	watchHits    int
 	sleepBudget  int
 	declined     bool
+	hb           *hbState
+	hbCache      map[*ssa.Function]bool
 	spawnRan     map[int]bool
 	inLeftover   bool
 	termWatch    map[*ChanObj]bool
@@ -483,6 +485,7 @@ func (e *Engine) resetPathState() {
 	e.watched = nil
 	e.watchHits = 0
 	e.sleepBudget = -1
+	e.hbReset()
 	e.spawnRan = map[int]bool{}
 	e.inLeftover = false
 	e.termWatch = map[*ChanObj]bool{}
